@@ -223,6 +223,19 @@ func ruleMultiSearchOrder(r *Report, rule string) {
 			}
 		}
 		r.Ob(rule, fi.Name+"/page-after-all-merges", pg.Pos(), ok, "the page is cut only after every member's result was merged (no merge can follow the cut)")
+		// the cut is what applies From/Size (members were asked for Size+From from 0): it must run on every
+		// successful return, whatever the members contributed
+		uncond := true
+		why := ""
+		for _, rs := range returnsOf(fi.Decl.Body) {
+			if len(rs.Results) == 2 && isNilIdent(info, rs.Results[1]) && g.ReachesNode(merges[0], rs) && !g.DominatesNode(pg, rs) {
+				// a success return after merging that the cut does not dominate
+				if !isNilIdent(info, rs.Results[0]) {
+					uncond, why = false, "success return at "+p.Pos(rs.Pos())+" is reachable without the page cut (guards of the cut: "+factsString(g.GuardsOf(pg))+")"
+				}
+			}
+		}
+		r.Ob(rule, fi.Name+"/page-cut-on-every-success-path", pg.Pos(), uncond, "hitsInCurrentPage applies the requested From/Size to the merged list; "+why+" - a path that skips it returns hits [0, From+Size) instead of the requested page")
 	}
 	for _, fx := range fixups {
 		ok := true
